@@ -33,12 +33,16 @@ theorem sim_assignOp (o : Ops V) (op1 op2 : SV V) :
         | none => sim_auto
     | num v => sim_auto
     | none => sim_auto
-  · refine sim_bind (sim_hasSV op1) (fun b1 _ => ?_)
-    refine sim_ite _ ?_ ?_
-    · refine sim_bind (sim_toFloat o op2) (fun v _ => ?_)
-      cases op1 <;> sim_auto
-    · refine sim_bind (sim_toFloat o op2) (fun v _ => ?_)
-      cases op1 <;> sim_auto
+  · cases coordTarget op1 with
+    | some c => simp only; sim_auto
+    | none =>
+      simp only
+      refine sim_bind (sim_hasSV op1) (fun b1 _ => ?_)
+      refine sim_ite _ ?_ ?_
+      · refine sim_bind (sim_toFloat o op2) (fun v _ => ?_)
+        cases op1 <;> sim_auto
+      · refine sim_bind (sim_toFloat o op2) (fun v _ => ?_)
+        cases op1 <;> sim_auto
 macro_rules | `(tactic| sim_leaf) => `(tactic| exact sim_assignOp _ _ _)
 
 theorem sim_arithOp (o : Ops V) (b : BOp) (op1 op2 : SV V) (k : Nat) :
